@@ -156,11 +156,15 @@ def step (w : World) (toks : List String) : World × String :=
       | none => (w, "unknown-block")
       | some b =>
         -- the hypotheses of the end-to-end merge theorem (Props/C02), evaluated on this store and these heads
-        let w := if w.wfLen == w.blocks.length then w else { w with wfLen := w.blocks.length, wfRes := wfCheck w.blocks }
-        let hyp := w.wfRes && b.kind == .comp && headsCheck w.blocks ((w.reps[r]!).doc b.doc).heads
+        let w := if w.wfLen == w.blocks.length then w else { w with wfLen := w.blocks.length, wfRes := wfCheck3 w.blocks }
+        let s0 := (w.reps[r]!).doc b.doc
+        let failed := (if w.wfRes then [] else ["store"]) ++ (if b.kind == .comp then [] else ["kind"]) ++
+          (if headsCheck w.blocks s0.heads then [] else ["heads"]) ++ (if kinvCheck w.blocks s0 then [] else ["kinv"]) ++
+          (if linkInvCheck w.blocks s0 then [] else ["linkinv"])
+        let hyp := failed.isEmpty
         let rep' := mergeDoc (cx w) (w.reps[r]!) b
         let w' := { w with reps := w.reps.set! r rep', merged := w.merged.set! r (closeUnder w.blocks id (w.merged[r]!)) }
-        (w', "ok " ++ viewLine w' r doc ++ (if hyp then "" else " MERGE-THEOREM-HYPOTHESIS-FALSE"))
+        (w', "ok " ++ viewLine w' r doc ++ (if hyp then "" else " MERGE-THEOREM-HYPOTHESIS-FALSE:" ++ ",".intercalate failed))
     | _, _ => (w, "bad-op")
   | ["delivercol", r, l] =>
     match r.toNat?, parseLabel l with
